@@ -173,6 +173,33 @@ def st_jobs(ctx, inv):
     return jobs
 
 
+def tb_consts(**kw):
+    c = {'Threads': '<-ThreadsDef', 'Locs': '<-LocsDef', 'InitVal': '<-InitValDef', 'Ord': '<-OrdCode', 'Weak': False,
+         'NT': 2, 'NEntries': 3, 'NNodes': 3, 'Lives': 2, 'MaxRetire': 2, 'AdoptCas': True, 'ReuseFree': True}
+    c.update(kw)
+    return c
+
+
+TB_ACTIONS = ['Start', 'a_ldh', 'a_ldst', 'a_cas', 'a_next', 'a_new', 'a_ldh2', 'a_setn', 'a_push', 'Retire', 'd_ld', 'd_xchg', 'd_walk', 'StartExit', 'b_link', 'b_ld', 'b_setn',
+              'b_cas', 'x_rel']
+INV_TB = ['Exclusive', 'Bounded', 'NoNodeLost', 'AllReachable']
+
+
+def tb_jobs(ctx):
+    """detail::thread_block_list: record adoption / creation / release over thread generations, abandoned retired nodes"""
+    q = ctx.quick
+    mc = lambda name, **kw: tlc_mc(ctx, name, 'ThreadBlockList', tb_consts(**kw.pop('c', {})), invariants=kw.pop('inv', INV_TB), view='mcview', **kw)
+    jobs = [
+        lambda: mc('tbl_2t_2lives', workers=4, must_cover=TB_ACTIONS),
+        lambda: mc('tbl_toggle_adopt_without_cas', c={'AdoptCas': False}, inv=['Exclusive'], workers=3, expect='violation'),
+        lambda: mc('tbl_toggle_never_reuse', c={'ReuseFree': False}, inv=['Bounded'], workers=3, expect='violation'),
+    ]
+    if not q:
+        jobs += [lambda: mc('tbl_3t', c={'NT': 3, 'Lives': 1, 'MaxRetire': 1}, workers=8, tmo=1500),
+                 lambda: mc('tbl_3t_2lives', c={'NT': 3, 'NEntries': 4, 'Lives': 2, 'NNodes': 2, 'MaxRetire': 1}, workers=12, tmo=3000, heap='24g')]
+    return jobs
+
+
 def run_models(ctx, pid):
     q = ctx.quick
     inv = {'C01': ['Safe'], 'C02': ['Safe', 'NoLeak'], 'C18': ['Safe', 'SlotsConserved'], 'C17': ['Safe', 'NoLeak']}[pid]
@@ -205,6 +232,8 @@ def run_models(ctx, pid):
         jobs += lf_jobs(ctx, ['Safe'] if pid == 'C01' else ['Safe', 'NoLeak', 'CountsOk'])
     if pid in ('C01', 'C02', 'C17'):
         jobs += st_jobs(ctx, ['Safe', 'TailBound'] if pid == 'C01' else ['Safe', 'TailBound', 'NoLeak', 'OnLists'])
+    if pid == 'C17':
+        jobs += tb_jobs(ctx)
     if pid in ('C01', 'C02', 'C18'):
         jobs += he_jobs(ctx, {'C01': ['Safe'], 'C02': ['Safe', 'NoLeak'], 'C18': ['Safe', 'SlotsConserved']}[pid])
     run_parallel(jobs, maxw=3)
